@@ -458,7 +458,7 @@ def fmt(t):
     if h == 'lambda':
         return 'lambda/%d: %s' % (t[1], fmt(t[2]))
     if h == 'fmt':
-        return 'fmt(%s)' % fmt(t[1])
+        return 'fmt(%s %% %s)' % (fmt(t[1]), fmt(t[2]) if len(t) > 2 else '')
     if h == 'sum':
         return 'SUM[%s](%s)' % (t[1], fmt(t[2]))
     if h == 'elem':
